@@ -482,3 +482,273 @@ def _return_values(fn):
                 else:
                     out.append(t)
     return out
+
+
+# ---------------------------------------------------------------- versioned table internals
+
+def _tt(F, suffix):
+    return [n for n in roles.table_types(F) if n.endswith(suffix)][0]
+
+
+def _tfn(F, tname, method):
+    c = [f for f in F.fns.values() if f.kind == "method" and f.j.get("method") == method
+         and (f.j.get("self_ty") or "").split("<")[0] == tname and not f.j.get("trait")]
+    return c[0] if len(c) == 1 else None
+
+
+def recv_field(fn, c):
+    if not c.args:
+        return None
+    fl = self_fields(origin(fn, c.args[0]))
+    return fl[0] if fl else None
+
+
+def clause_scan_unord(R, F, CG, U=None):
+    """range/full scans of the versioned table: complete (no element-dependent exit from the cache merge loop)
+    and not in hash order"""
+    from unord import Unord
+    if U is None:
+        U = Unord(F, CG)
+        U.run([])
+    tts = set(roles.table_types(F))
+    n = 0
+    for key, info in sorted(U.loops_seen.items()):
+        fn = F.fns[key[0]]
+        if (fn.j.get("self_ty") or "").split("<")[0] not in tts:
+            continue
+        n += 1
+        m = fn.j.get("method")
+        R.ob(not info["exits"], "U-EXIT", "%s:%s" % (fn.loc["f"], info["line"]), "U-EXIT|%s|line-independent" % fn.name,
+             "the loop over a hash container in %s can be left on a condition that depends on the element drawn (%s): which "
+             "rows are seen depends on hash iteration order, so uncommitted rows can be missed" % (
+                 m, "; ".join("%s at %s" % (e["cond"][:90], e["at"]) for e in info["exits"])),
+             sample={"rule": "U-EXIT", "fn": fn.name, "loop_line": info["line"], "effects": [e["callee"].split("::")[-1] for e in info["effects"]]})
+    R.floor("hash_loops_in_tables", n, 6)
+    for m in ("get_range", "all"):
+        fn = _tfn(F, _tt(F, "BlockCachedDatabase"), m)
+        if fn is None:
+            R.violation("U-RETURN", "table", "U-RETURN|%s|missing" % m, "scan method %s not found" % m)
+            continue
+        sites = U.analyze(fn.id, frozenset())
+        R.ob(not sites, "U-RETURN", fn.where(), "U-RETURN|%s" % fn.name,
+             "%s returns its rows in hash iteration order (collected from a HashMap at %s); callers that need chain/key "
+             "order get an arbitrary one" % (m, ", ".join(sorted(s.split("@")[-1] for s in sites))),
+             sample={"rule": "U-RETURN", "fn": fn.name, "ordered": True})
+    return U
+
+
+def clause_read_merge(R, F):
+    """point reads consult the cache first and fall to disk only on a miss; scans merge disk then cache"""
+    for (tsuf, meth, mapget) in (("BlockCachedDatabase", "latest", "HashMap"), ("BlockDatabase", "get", "BTreeMap")):
+        fn = _tfn(F, _tt(F, tsuf), meth)
+        if fn is None:
+            R.violation("READ-MERGE", "table", "READ-MERGE|%s.%s|missing" % (tsuf, meth), "read method missing")
+            continue
+        cache_get = [c for c in fn.calls() if (c.method or "") == "get" and recv_field(fn, c) == "cache" and not fn.is_cleanup(c.bb)]
+        disk_get = [c for c in fn.calls() if (c.method or "") in ("get", "get_pinned") and recv_field(fn, c) == "db" and not fn.is_cleanup(c.bb)]
+        ok = bool(cache_get) and bool(disk_get)
+        if ok:
+            # the disk read must be unreachable once the `Some` edge of the cache lookup is taken, and dominated by the lookup
+            cg = cache_get[0]
+            ok = fn.dominates(cg.bb, disk_get[0].bb)
+            sw = fn.succ(cg.bb)[0]
+            t = fn.term(sw)
+            some_targets = []
+            if t["k"] == "switch":
+                d = origin(fn, t["discr"])
+                for v, tb in t["targets"]:
+                    names = [n for (n, val) in (d[3] if d[0] == "discr" and len(d) > 3 else ()) if val == v]
+                    if "Some" in names:
+                        some_targets.append(tb)
+                if not some_targets and [v for v, _ in t["targets"]] == [0]:
+                    some_targets.append(t["otherwise"])
+            hit_reach = set()
+            for s in some_targets:
+                hit_reach |= fn.reachable(s)
+            ok = ok and bool(some_targets) and disk_get[0].bb not in hit_reach
+        R.ob(ok, "READ-MERGE", fn.where(), "READ-MERGE|%s.%s" % (tsuf, meth),
+             "%s::%s does not read the cache first and the disk only on a cache miss" % (tsuf, meth),
+             sample={"rule": "READ-MERGE point read", "fn": fn.name})
+    # scans
+    tname = _tt(F, "BlockCachedDatabase")
+    for meth, scan in (("get_range", "iterator"), ("all", "full_iterator")):
+        fn = _tfn(F, tname, meth)
+        if fn is None:
+            continue
+        disk = [c for c in fn.calls() if (c.method or "") == scan and recv_field(fn, c) == "db" and not fn.is_cleanup(c.bb)]
+        mem = [c for c in fn.calls() if (c.method or "") in ("keys", "iter", "into_iter", "values") and recv_field(fn, c) == "cache"
+               and not fn.is_cleanup(c.bb)]
+        ok = bool(disk) and bool(mem) and must_pass_on_success(fn, [disk[0].bb]) and must_pass_on_success(fn, [mem[0].bb]) \
+            and fn.dominates(disk[0].bb, mem[0].bb)
+        R.ob(ok, "READ-MERGE", fn.where(), "READ-MERGE|table.%s" % meth,
+             "%s does not merge the persisted rows first and the cached rows over them on every path" % meth,
+             sample={"rule": "READ-MERGE scan", "fn": fn.name, "disk": scan, "then": "self.cache"})
+        if meth == "get_range" and disk:
+            a = show(origin(fn, disk[0].args[1]))
+            R.ob("From" in a and "Forward" in a and mentions(origin(fn, disk[0].args[1]), "start_key"), "WIRE", disk[0].where(),
+                 "WIRE|get_range|iterator-mode", "range scan does not start at the encoded start key going forward: %s" % a[:160])
+    fn = _tfn(F, _tt(F, "BlockDatabase"), "last_key")
+    if fn:
+        disk = [c for c in fn.calls() if (c.method or "") == "full_iterator" and recv_field(fn, c) == "db"]
+        mem = [c for c in fn.calls() if (c.method or "") in ("keys", "last_key_value", "iter") and recv_field(fn, c) == "cache"]
+        mx = [c for c in fn.calls() if (c.target_path or "").endswith("cmp::max")]
+        okm = bool(disk) and bool(mem) and bool(mx)
+        if disk:
+            okm = okm and "End" in show(origin(fn, disk[0].args[1]))
+        R.ob(okm, "READ-MERGE", fn.where(), "READ-MERGE|blockdb.last_key",
+             "last_key is not max(last persisted key [IteratorMode::End], last cached key)",
+             sample={"rule": "READ-MERGE last_key", "fn": fn.name})
+
+
+def clause_commit_per_key(R, F):
+    """BlockCachedDatabase::commit: per key, the history row is written before the latest-value row"""
+    fn = _tfn(F, _tt(F, "BlockCachedDatabase"), "commit")
+    hist = [c for c in fn.calls() if (c.method or "") in ("put", "delete") and recv_field(fn, c) == "cache_db" and not fn.is_cleanup(c.bb)]
+    late = [c for c in fn.calls() if (c.method or "") in ("put", "delete") and recv_field(fn, c) == "db" and not fn.is_cleanup(c.bb)]
+    R.floor("commit_history_writes", len(hist), 2)
+    R.floor("commit_latest_writes", len(late), 2)
+    from unord import Unord
+    loops = Unord(F, None).natural_loops(fn)
+    for c in late:
+        heads = [h for h, body in loops.items() if c.bb in body]
+        ok = bool(heads)
+        for h in heads:
+            # from the loop head, reach c without passing a history write and without going round the loop again
+            avoid = {x.bb for x in hist}
+            reach = set()
+            st = [s for s in fn.succ(h)]
+            while st:
+                b = st.pop()
+                if b in reach or b in avoid or b == h:
+                    continue
+                reach.add(b)
+                st.extend(fn.succ(b))
+            if c.bb in reach:
+                ok = False
+        R.ob(ok, "DOM-order", c.where(), "DOM-order|table.commit|history<latest:%s" % (c.method),
+             "latest-value %s on `db` can execute before the history row of the same key is written to `cache_db`: a crash in "
+             "between leaves a new latest value whose pre-image is not recoverable by reorg" % c.method,
+             sample={"rule": "DOM-order per key", "first": "cache_db.put|delete", "then": "db." + (c.method or "")})
+        # same key both sides
+    keys = set()
+    for c in hist + late:
+        keys.add(show(origin(fn, c.args[1]))[:120])
+    R.ob(len(keys) == 1, "WIRE", fn.where(), "WIRE|table.commit|same-key", "history and latest rows are written under different keys: %s" % sorted(keys))
+    # is_old pairing: the predicate that deletes the history row also removes the in-memory entry, same argument
+    iso = [c for c in fn.calls() if (c.method or "") == "is_old" and not fn.is_cleanup(c.bb)]
+    desc = F.descendants(fn.id)
+    for d in desc:
+        iso += [c for c in d.calls() if (c.method or "") == "is_old"]
+    args = set()
+    for c in iso:
+        a = origin(c.fn, c.args[1])
+        args.add(show(a))
+    R.ob(len(iso) >= 2 and all(("block_number" in a) for a in args), "GUARD", fn.where(), "GUARD|table.commit|is_old-pair",
+         "the two uses of is_old in commit (history row deletion, cache eviction) do not test the same block number: %s" % sorted(args),
+         sample={"rule": "GUARD pairing", "fn": "table.commit", "is_old_args": sorted(args)})
+    dels = [c for c in hist if c.method == "delete"]
+    for c in dels:
+        cd = control_deps(fn).get(c.bb, set())
+        ok = False
+        for (a, s) in cd:
+            be = bool_edge(fn, a, s)
+            if be and be[1] is True and mentions(be[0], "is_old"):
+                ok = True
+        R.ob(ok, "GUARD", c.where(), "GUARD|table.commit|history-delete", "history row is deleted on a path not guarded by is_old == true")
+    # latest row written iff latest() is Some
+    for c in late:
+        cd = control_deps(fn).get(c.bb, set())
+        ok = any(mentions(origin(fn, fn.term(a)["discr"]), "latest") for (a, s) in cd if fn.term(a)["k"] == "switch")
+        R.ob(ok, "GUARD", c.where(), "GUARD|table.commit|latest-%s" % c.method, "db.%s is not selected by latest() being Some/None" % c.method)
+
+
+def clause_blockdb_commit(R, F):
+    fn = _tfn(F, _tt(F, "BlockDatabase"), "commit")
+    puts = [c for c in fn.calls() if (c.method or "") == "put" and recv_field(fn, c) == "db" and not fn.is_cleanup(c.bb)]
+    fl = [c for c in fn.calls() if (c.method or "") == "flush" and recv_field(fn, c) == "db" and not fn.is_cleanup(c.bb)]
+    R.ob(bool(puts) and bool(fl) and must_pass_on_success(fn, [c.bb for c in fl]), "DOM-all", fn.where(), "DOM-all|blockdb.commit|flush",
+         "BlockDatabase::commit does not flush on every success path", sample={"rule": "DOM-all", "fn": "blockdb.commit", "step": "flush"})
+    for f in fl:
+        for p in puts:
+            R.ob(not fn.dominates(f.bb, p.bb), "DOM-order", f.where(), "DOM-order|blockdb.commit|put<flush", "flush precedes the puts")
+
+
+def clause_retrieve_cache(R, F):
+    fn = _tfn(F, _tt(F, "BlockCachedDatabase"), "retrieve_cache")
+    ins = [c for c in fn.calls() if (c.method or "") == "insert" and recv_field(fn, c) == "cache" and not fn.is_cleanup(c.bb)]
+    ck = [c for c in fn.calls() if (c.method or "") == "contains_key" and recv_field(fn, c) == "cache" and not fn.is_cleanup(c.bb)]
+    R.floor("retrieve_cache_inserts", len(ins), 2)
+    for c in ins:
+        # never overwrite: unreachable once contains_key == true
+        ok = False
+        if ck:
+            sw = fn.succ(ck[0].bb)[0]
+            removed = []
+            for s in fn.succ(sw):
+                be = bool_edge(fn, sw, s)
+                if be and be[1] is False:
+                    removed.append((sw, s))
+            from terms import reachable_without_edges
+            ok = bool(removed) and c.bb not in reachable_without_edges(fn, removed)
+        R.ob(ok, "GUARD", c.where(), "GUARD|retrieve_cache|no-overwrite",
+             "a cached history can be overwritten: insert is reachable when the key is already cached",
+             sample={"rule": "GUARD", "fn": "retrieve_cache", "insert_guarded_by": "!contains_key"})
+    # the seed of a fresh history is the stored latest value
+    seeds = [c for c in fn.calls() if (c.method or "") == "new" and (c.trait or "").endswith("BlockHistoryCache")]
+    def _seed_ok(c):
+        from terms import closures_in_term
+        t = origin(fn, c.args[0])
+        if not (mentions(t, ".db") and not mentions(t, "cache_db") and mentions(t, "get")):
+            return False
+        if mentions(t, "decode_vec") or mentions(t, "decode"):
+            return True
+        for cid in closures_in_term(t):
+            g = F.fns.get(cid)
+            if g and any((x.method or "") in ("decode_vec", "decode") for x in g.calls()):
+                return True
+        return False
+    R.ob(bool(seeds) and all(_seed_ok(c) for c in seeds),
+         "WIRE", fn.where(), "WIRE|retrieve_cache|seed", "a fresh history is not seeded from the persisted latest value (db.get -> decode)",
+         sample={"rule": "WIRE", "fn": "retrieve_cache", "seed": "C::new(db.get(key).decode)"})
+    hist = [c for c in fn.calls() if (c.method or "") in ("get", "get_pinned") and recv_field(fn, c) == "cache_db"]
+    R.ob(bool(hist), "WIRE", fn.where(), "WIRE|retrieve_cache|history-row", "persisted history (cache_db) is not consulted before seeding")
+
+
+def clause_who_touches_disk(R, F, E):
+    """RocksDB reads/writes occur only inside the table types and the config database"""
+    allowed = set(roles.table_types(F))
+    n = 0
+    for fid, effs in E.direct.items():
+        for e in effs:
+            if e[0] in ("RDISK", "WDISK") and not e[1].startswith("fs::"):
+                n += 1
+                fn = F.fns[fid]
+                owner = (fn.j.get("self_ty") or "").split("<")[0]
+                # closures inside table methods
+                if not owner:
+                    root = F.fns.get(fn.j.get("root") or "")
+                    owner = ((root.j.get("self_ty") if root else "") or "").split("<")[0]
+                R.ob(owner in allowed, "WHO-DISK", E.where[(fid, e)][0], "WHO-DISK|%s|%s" % (fn.name, e[1]),
+                     "RocksDB %s (%s) outside the table types: reads/writes that bypass the block cache" % (e[0], e[1]),
+                     sample=None)
+    R.floor("disk_access_sites", n, 15)
+
+
+def clause_engine_commit_clear(R, F):
+    """commit only at block boundaries; clear_caches resets LastBlockInfo and wakes waiters before dropping caches"""
+    from windowrules import _engine_fn, _err_propagated
+    fn = _engine_fn(F, "commit_to_db")
+    req = [c for c in fn.calls() if (c.method or "") == "require_no_waiting_txes" and not fn.is_cleanup(c.bb)]
+    wr = [c for c in fn.calls() if (c.method or "") in ("write_fn", "write_fn_unchecked") and not fn.is_cleanup(c.bb)]
+    R.ob(bool(req) and bool(wr) and all(fn.dominates(req[0].bb, w.bb) for w in wr) and _err_propagated(fn, req[0]), "DOM-before", fn.where(),
+         "DOM-before|commit_to_db|require_no_waiting_txes", "commit_to_db can commit in the middle of a block (validator missing, dropped or late)",
+         sample={"rule": "DOM-before", "fn": "commit_to_db", "a": "require_no_waiting_txes", "b": "db.write_fn(commit_changes)"})
+    fn = _engine_fn(F, "clear_caches")
+    wr = [c for c in fn.calls() if (c.method or "") in ("write_fn", "write_fn_unchecked") and not fn.is_cleanup(c.bb)]
+    nt = [c for c in fn.calls() if (c.method or "") == "notify_waiters" and not fn.is_cleanup(c.bb)]
+    lbi = [c for c in wr if "last_block_info" in show(origin(fn, c.args[0]))]
+    dbw = [c for c in wr if ".db" in show(origin(fn, c.args[0]))]
+    R.ob(bool(lbi) and bool(dbw) and bool(nt) and fn.dominates(lbi[0].bb, dbw[0].bb) and fn.dominates(nt[0].bb, dbw[0].bb), "DOM-order",
+         fn.where(), "DOM-order|clear_caches|reset<drop",
+         "clear_caches does not reset the unfinished-block info and notify waiters before dropping the caches",
+         sample={"rule": "DOM-order", "fn": "engine.clear_caches", "order": "LastBlockInfo reset, notify, db.clear_caches"})
